@@ -17,28 +17,28 @@ def job(mode, timeout=900, **kw):
 
 PLANS = {
     "C01": {
-        "quick": [sess("tree", "C01", 400, 40), sess("mixed", "C01", 200, 20)],
-        "thorough": [sess("tree", "C01", 6000, 420), sess("mixed", "C01", 3000, 240), sess("tree", "C01", 800, 90, variant="nouni")],
+        "quick": [sess("tree", "C01", 400, 30), sess("mixed", "C01", 200, 15), sess("rootfill", "C01", 200, 12), sess("dirfill", "C01", 100, 12)],
+        "thorough": [sess("tree", "C01", 6000, 420), sess("mixed", "C01", 3000, 240), sess("rootfill", "C01", 3000, 120), sess("dirfill", "C01", 2000, 120), sess("tree", "C01", 800, 90, variant="nouni")],
         "floor": 2000,
     },
     "C02": {
-        "quick": [sess("file", "C02", 400, 45)],
+        "quick": [sess("file", "C02", 1200, 45)],
         "thorough": [sess("file", "C02", 6000, 420)],
         "floor": 2000,
     },
     "C03": {
-        "quick": [sess("mixed", "C03", 300, 30), sess("alloc", "C03", 300, 30)],
-        "thorough": [sess("mixed", "C03", 4000, 300), sess("alloc", "C03", 4000, 300)],
+        "quick": [sess("mixed", "C03", 300, 20), sess("alloc", "C03", 300, 15), sess("rootfill", "C03", 300, 15), sess("dirfill", "C03", 150, 15)],
+        "thorough": [sess("mixed", "C03", 4000, 300), sess("alloc", "C03", 4000, 300), sess("rootfill", "C03", 4000, 180), sess("dirfill", "C03", 3000, 180)],
         "floor": 2000,
     },
     "C04": {
-        "quick": [sess("remount", "C04", 400, 45, args={"shadow": 1})],
+        "quick": [sess("remount", "C04", 1200, 45, args={"shadow": 1})],
         "thorough": [sess("remount", "C04", 5000, 400, args={"shadow": 1})],
         "floor": 2000,
     },
     "C05": {
-        "quick": [sess("alloc", "C05", 500, 45)],
-        "thorough": [sess("alloc", "C05", 6000, 420)],
+        "quick": [sess("alloc", "C05", 500, 30), sess("rootfill", "C05", 200, 10), sess("dirfill", "C05", 150, 15)],
+        "thorough": [sess("alloc", "C05", 6000, 420), sess("rootfill", "C05", 3000, 120), sess("dirfill", "C05", 3000, 180)],
         "floor": 2000,
     },
     "C10": {
@@ -52,11 +52,54 @@ PLANS = {
         "floor": 2000,
     },
     "C12": {
-        "quick": [sess("remount", "C12", 400, 40, args={"shadow": 1})],
+        "quick": [sess("remount", "C12", 1200, 40, args={"shadow": 1})],
         "thorough": [sess("remount", "C12", 5000, 300, args={"shadow": 1})],
         "floor": 2000,
     },
 }
+
+PLANS.update({
+    "C06": {
+        "quick": [job("c06"), job("c06", profile="relwrap")],
+        "thorough": [job("c06", timeout=3600), job("c06", profile="relwrap", timeout=3600, args={"part": "real"})],
+        "floor": 100000,
+    },
+    "C07": {
+        "quick": [job("c07"), job("c07", profile="relwrap")],
+        "thorough": [job("c07"), job("c07", profile="relwrap")],
+        "floor": 100000,
+    },
+    "C09": {
+        "quick": [job("c09")],
+        "thorough": [job("c09", timeout=3600), job("c09", variant="noalloc", timeout=3600)],
+        "floor": 20000,
+    },
+    "C14": {
+        "quick": [job("c14", args={"sessions": 400, "time": 40})],
+        "thorough": [job("c14", args={"sessions": 6000, "time": 480}, timeout=3600)],
+        "floor": 20000,
+    },
+    "C15": {
+        "quick": [job("c15"), job("c15", variant="nouni")],
+        "thorough": [job("c15"), job("c15", variant="nouni"), job("c15", profile="relwrap")],
+        "floor": 50000,
+    },
+    "C16": {
+        "quick": [job("c16"), sess("tree", "C16", 200, 15)],
+        "thorough": [job("c16"), job("c16", variant="nouni"), sess("tree", "C16", 3000, 200)],
+        "floor": 10000,
+    },
+    "C18": {
+        "quick": [job("c18"), sess("file", "C18", 600, 25, args={"atime": 1, "nolibwalk": 1})],
+        "thorough": [job("c18"), job("c18", profile="relwrap"), sess("file", "C18", 6000, 300, args={"atime": 1, "nolibwalk": 1}), sess("tree", "C18", 3000, 200, args={"atime": 1, "nolibwalk": 1})],
+        "floor": 100000,
+    },
+    "C17": {
+        "quick": [job("c17"), job("c17", variant="noalloc")],
+        "thorough": [job("c17"), job("c17", variant="noalloc"), job("c17", profile="relwrap")],
+        "floor": 100000,
+    },
+})
 
 LEVELS = {p: "exploration" for p in ["C%02d" % i for i in range(1, 21)]}
 LEVELS["C09"] = "fault_enumeration"
@@ -91,6 +134,20 @@ LEVEL_TEXT = {
     "C11": "Exploration: offline checker over the device write log of every call against the independent region/ownership map.",
     "C12": "Exploration: temporal monitor (structural-change latch vs. dirty bit) at every call boundary, with a copy of the image mounted at every boundary.",
 }
+LEVEL_TEXT.update({
+    "C06": "Exploration with an exhaustively executed sub-space: real format_volume runs over an option grid and size thresholds are validated by the independent decoder and by mounting; the boot-sector hook sweeps sector counts (quick: windows around every threshold, a stride over 2^32 and the first 300000 sizes; thorough: every one of the 2^32 sizes for default options). Checked (overflow checks on) and release-like (wrapping) profiles.",
+    "C07": "Exploration with exhaustively executed sub-spaces: every value of every 8- and 16-bit BPB field on four valid base images, 32-bit fields at boundary values, random multi-field combinations, FS-info contents and random sectors; panics/budget overruns captured, accepted volumes compared with an independent 128-bit parse. Two build profiles.",
+    "C15": "Exploration with an exhaustively executed sub-space: every BMP scalar value in three positions, every length 0..300 for five unit patterns, dots/spaces, case-mapping characters and random names, each driven through create/lookup-matrix/rename/remove in its own monitored session (reference tree + raw decode + byte-level no-side-effect check).",
+    "C17": "Exploration with an exhaustively executed sub-space: all order/checksum/fill patterns for runs of up to 3 long-name slots x 5 followers, every value of every byte of a 3-slot base run, maximal/over-long runs, orphan starts, random slot soup; fixed-root and cluster-chain directories; dynamic and fixed-buffer builds. Oracle: independent LFN state machine + panic/budget capture.",
+})
+LEVEL_TEXT.update({
+    "C16": "Exploration: collision-engineered directory populations (same 6-character prefix, same prefix+extension+16-bit name hash found by brute force, alias look-alikes, dots/spaces/empty bases, non-ASCII, deletions and renames in between) created under the session monitors: raw short-name legality, duplicate short names (I8), checksum link (I7), device-call budget for termination.",
+    "C18": "Exploration with an exhaustively executed domain: every (year, month, day) accepted by Date::new and every (hour, minute, second, 10 ms step) (+9 ms offsets) is set on a file, flushed, re-listed and compared with the specification's bit layout in the raw entry; stamping rules are monitored on random histories under a deterministic, logging time provider (access-date option on and off).",
+})
+LEVEL_TEXT.update({
+    "C09": "Fault enumeration: for 44 representative operations on four volume geometries (FAT12/16/32) every device-call index k of the operation is failed once (exhaustive single-fault enumeration; thorough adds per-kind enumeration), the result of the public call is compared with the injected error code, destructor-issued calls are exempted through the drop-depth hook, a device-call budget of 20x the fault-free count detects non-termination, destructors after the failed call run under the same budget.",
+    "C14": "Fault enumeration over crash points: random histories are journaled (every device write with payload, every device flush); for every call the image is rebuilt after each of its device writes (strided above 96 writes per call) and every file that was durable before the call and is not touched by it must read back exactly through a fresh mount; at every flush/drop of a file handle no device write may be younger than the last device flush.",
+})
 LEVEL_NOTE = {
     "*": "Trusted base: the harness (device, independent decoder fatck, reference model) and rustc's dynamic checks (overflow checks, debug assertions, bounds checks are ON in the relcheck profile). Only executed histories are covered; see evidence coverage for what was observed.",
 }
@@ -104,5 +161,33 @@ TECHNIQUE = {
     "C11": "runtime monitoring: offline checker over the device write event log vs ownership map",
     "C12": "runtime monitoring: temporal monitor over the status byte at every call boundary",
 }
+TECHNIQUE.update({
+    "C06": "runtime monitoring: independent validator of formatted images + executed sweep of the boot-sector hook",
+    "C07": "runtime monitoring: panic/overflow capture + independent wide-integer BPB parse over executed field sweeps",
+    "C15": "runtime monitoring: independent name predicate + reference tree + raw decode on per-name sessions",
+    "C17": "runtime monitoring: panic/termination capture + independent LFN state machine on crafted slot streams",
+})
+RULES.update({
+    "C06": "format requests = option grid (sector size, cluster size, FAT count, root entries, forced type, label, id, media) x sizes at every heuristic/type threshold +-{0,1,2,31,64,129} and random; hook sweep over sector counts. distinct = distinct (option class, result kind, FAT width, cluster size, sectors per FAT) tuples",
+    "C07": "mutations of valid boot sectors / FS-info sectors. distinct = distinct (base image, mutated field, result kind, accepted geometry, independent verdict class) tuples",
+    "C15": "one monitored session per candidate name. distinct = distinct names (each a different point of the input domain); evaluations = names",
+    "C17": "crafted 32-byte slot streams written into a fixed root or a cluster directory, iterated through the crate with every accessor. distinct = distinct (case family, directory kind, entry count, per-entry long/broken/soft pattern) tuples",
+})
+TECHNIQUE.update({
+    "C16": "runtime monitoring: raw short-name legality/uniqueness/checksum invariants after every creation + call budget",
+    "C18": "runtime monitoring: spec bit-layout decode of raw entries over the whole date/time domain + stamping-rule monitor with a logging clock",
+})
+RULES.update({
+    "C16": "name families engineered to collide in alias generation, created (with deletions/renames) in one directory. evaluations = API calls; distinct = distinct (family, name) alias-generation problems posed",
+    "C18": "domain sweep: evaluations = (date,time) values set+flushed+re-listed; distinct = distinct (date word, time word, tenths) triples stored; plus stamping-rule sessions",
+})
+TECHNIQUE.update({
+    "C09": "runtime monitoring: single-fault injection at every device call index + result-kind oracle + call budget",
+    "C14": "runtime monitoring: offline checker over the recorded device write/flush journal (crash-image reconstruction)",
+})
+RULES.update({
+    "C09": "evaluations = (operation, geometry, k) runs in which the injected fault fired; distinct = distinct (geometry, scenario, k, kind mask) tuples; all k in 1..N are executed for every scenario",
+    "C14": "evaluations = crash images rebuilt and remounted; distinct = distinct (call kind, write index within the call, protected file length) tuples",
+})
 DESIGN_REF = {}
 NOT_APPLICABLE = []
